@@ -8,6 +8,7 @@ package mechanisms
 
 import (
 	"context"
+	"crypto"
 	"crypto/ecdsa"
 	"crypto/elliptic"
 	"crypto/rand"
@@ -22,6 +23,7 @@ import (
 	"net/url"
 	"os"
 	"path/filepath"
+	"sort"
 	"strings"
 	"sync"
 	"testing"
@@ -37,7 +39,9 @@ import (
 	"github.com/dadrus/heimdall/internal/handler/requestcontext"
 	"github.com/dadrus/heimdall/internal/keyholder"
 	"github.com/dadrus/heimdall/internal/otel/metrics/certificate"
+	"github.com/dadrus/heimdall/internal/rules/mechanisms/authenticators"
 	"github.com/dadrus/heimdall/internal/rules/mechanisms/finalizers"
+	"github.com/dadrus/heimdall/internal/rules/mechanisms/subject"
 	"github.com/dadrus/heimdall/internal/rules/oauth2/clientcredentials"
 	"github.com/dadrus/heimdall/internal/watcher"
 	"github.com/dadrus/heimdall/internal/zzverif/vf"
@@ -354,6 +358,7 @@ type c11JFView struct {
 }
 
 type c11JFObs struct {
+	Thumbs []string        `json:"-"` // thumbprint of the initial key, then one entry per step (the new key's for a reload)
 	Status string          `json:"status"`
 	Detail string          `json:"detail,omitempty"`
 	Steps  []*c11Obs2      `json:"steps"` // nil for reloads
@@ -455,10 +460,20 @@ func c11JFEffective(p c11JFConf, o *c11JFConf) c11JFConf {
 	return e
 }
 
-func c11JFKey(kid, iss string, c c11JFConf, q c11Req, tab *c11Sha) string {
+// RFC 7638 thumbprint of the public key (what jwtSigner.Hash mixes in since d9caf75)
+func c11Thumb(k *ecdsa.PrivateKey) string {
+	t, err := (&jose.JSONWebKey{Key: &k.PublicKey}).Thumbprint(crypto.SHA256)
+	if err != nil {
+		panic(err)
+	}
+
+	return string(t)
+}
+
+func c11JFKey(kid, thumb, iss string, c c11JFConf, q c11Req, tab *c11Sha) string {
 	var pre strings.Builder
 
-	pre.WriteString(tab.sum(kid + "ES256" + iss))
+	pre.WriteString(tab.sum(kid + "ES256" + iss + thumb))
 
 	if c.HasClaims {
 		pre.WriteString(tab.sum(c.Claims.text()))
@@ -483,6 +498,7 @@ func c11RunJF(dir string, c *c11JFCase) (c11JFObs, *c11Sha) {
 	}
 
 	keys = append(keys, k)
+	thumb := c11Thumb(k)
 
 	signer := map[string]any{"key_store": map[string]any{"path": ks}}
 	if c.KeyID != "" {
@@ -544,7 +560,7 @@ func c11RunJF(dir string, c *c11JFCase) (c11JFObs, *c11Sha) {
 	}
 
 	kid := c.Kid0
-	obs := c11JFObs{Status: "ok"}
+	obs := c11JFObs{Status: "ok", Thumbs: []string{thumb}}
 	shared := c11NewCache()
 
 	exec := func(i int, q c11Req, cch cache.Cache) string {
@@ -588,6 +604,7 @@ func c11RunJF(dir string, c *c11JFCase) (c11JFObs, *c11Sha) {
 			for _, pub := range khr.Keys() {
 				if ek, ok := pub.Key.(*ecdsa.PublicKey); ok && ek.Equal(&k.PublicKey) {
 					keys = append(keys, k)
+					thumb = c11Thumb(k)
 				}
 			}
 
@@ -598,6 +615,7 @@ func c11RunJF(dir string, c *c11JFCase) (c11JFObs, *c11Sha) {
 
 			obs.Steps = append(obs.Steps, nil)
 			obs.Views = append(obs.Views, nil)
+			obs.Thumbs = append(obs.Thumbs, c11Thumb(k))
 
 			continue
 		}
@@ -611,9 +629,10 @@ func c11RunJF(dir string, c *c11JFCase) (c11JFObs, *c11Sha) {
 		}
 
 		o.Fresh = exec(st.Inst, st.Req, nil)
-		c11JFKey(kid, iss, effs[st.Inst], st.Req, tab)
+		c11JFKey(kid, thumb, iss, effs[st.Inst], st.Req, tab)
 		obs.Steps = append(obs.Steps, o)
 		obs.Views = append(obs.Views, &[2]c11JFView{view(o.Out), view(o.Fresh)})
+		obs.Thumbs = append(obs.Thumbs, "")
 	}
 
 	return obs, tab
@@ -634,7 +653,7 @@ func c11CoqView(v c11JFView) string {
 
 func c11CoqJF(c c11JFCase, o c11JFObs, tab *c11Sha) string {
 	if o.Status != "ok" {
-		return "(JF [] None (sgn \"rejected\" 0) [(JReload \"x\", Some (ob2 None false 0 OErr OErr))])"
+		return "(JF [] None (sgn \"rejected\" 0 \"\") [(JReload \"x\" \"\", Some (ob2 None false 0 OErr OErr))])"
 	}
 
 	b := &c11Binder{names: map[string]string{}}
@@ -651,7 +670,7 @@ func c11CoqJF(c c11JFCase, o c11JFObs, tab *c11Sha) string {
 
 	for i, st := range c.Steps {
 		if st.Reload != "" {
-			steps = append(steps, vf.CoqPair("JReload "+vf.CoqStr(st.Reload), "None"))
+			steps = append(steps, vf.CoqPair("JReload "+vf.CoqStr(st.Reload)+" "+c11Bytes(o.Thumbs[i+1]), "None"))
 
 			continue
 		}
@@ -664,7 +683,7 @@ func c11CoqJF(c c11JFCase, o c11JFObs, tab *c11Sha) string {
 		steps = append(steps, vf.CoqPair(vf.CoqApp("JExec", cfg, rq), "(Some "+ob+")"))
 	}
 
-	return vf.CoqApp("JF", c11CoqSha(tab), kc, vf.CoqApp("sgn", vf.CoqStr(c.Kid0), "0"), vf.CoqList(steps))
+	return vf.CoqApp("JF", c11CoqSha(tab), kc, vf.CoqApp("sgn", vf.CoqStr(c.Kid0), "0", c11Bytes(o.Thumbs[0])), vf.CoqList(steps))
 }
 
 func c11GenJF(r *vf.Rand) c11JFCase {
@@ -758,6 +777,562 @@ func c11JFCorpus() []c11JFCase {
 	}
 }
 
+// ---------------------------------------------------------------- key cache of the jwt authenticator
+
+type c11Jwks struct {
+	srv   *httptest.Server
+	mu    sync.Mutex
+	calls int
+	keys  map[string]*ecdsa.PrivateKey // issuer -> key
+}
+
+var c11Issuers = []string{"isa", "isb", "isc"} //nolint:gochecknoglobals
+
+func c11NewJwks() *c11Jwks {
+	j := &c11Jwks{keys: map[string]*ecdsa.PrivateKey{}}
+
+	for _, iss := range c11Issuers {
+		k, err := ecdsa.GenerateKey(elliptic.P256(), rand.Reader)
+		if err != nil {
+			panic(err)
+		}
+
+		j.keys[iss] = k
+	}
+
+	j.srv = httptest.NewServer(http.HandlerFunc(func(w http.ResponseWriter, r *http.Request) {
+		j.mu.Lock()
+		j.calls++
+		j.mu.Unlock()
+
+		parts := strings.Split(strings.Trim(r.URL.Path, "/"), "/") // j/<issuer>/jwks
+		if len(parts) != 3 || parts[0] != "j" || j.keys[parts[1]] == nil {
+			w.WriteHeader(http.StatusNotFound)
+
+			return
+		}
+
+		iss := parts[1]
+		set := jose.JSONWebKeySet{Keys: []jose.JSONWebKey{
+			{Key: &j.keys[iss].PublicKey, KeyID: "k1", Algorithm: "ES256", Use: "sig"},
+			{Key: &j.keys[iss].PublicKey, KeyID: "k-" + iss, Algorithm: "ES256", Use: "sig"},
+		}}
+
+		w.Header().Set("Content-Type", "application/json")
+		json.NewEncoder(w).Encode(set)
+	}))
+
+	return j
+}
+
+type c11JKConf struct {
+	Templated bool    `json:"templated"` // url = <srv>/j/{{ .TokenIssuer }}/jwks, else <srv>/j/<Literal>/jwks
+	Literal   string  `json:"literal,omitempty"`
+	Headers   []c11KV `json:"headers,omitempty"`
+	TTL       *int64  `json:"ttl,omitempty"`
+}
+
+type c11JTok struct {
+	Iss    string `json:"iss"`
+	Kid    string `json:"kid"`
+	Signer string `json:"signer"`
+	Sub    string `json:"sub"`
+}
+
+type c11JKStep struct {
+	Inst int     `json:"inst"` // 0 prototype, 1 rule-level instance (cache_ttl override)
+	Tok  c11JTok `json:"tok"`
+	Rel  string  `json:"rel"`
+}
+
+type c11JKCase struct {
+	Proto c11JKConf   `json:"proto"`
+	Over  *int64      `json:"over,omitempty"` // rule-level cache_ttl
+	Steps []c11JKStep `json:"steps"`
+}
+
+func (j *c11Jwks) urlText(c c11JKConf) (pre, suf, text string) {
+	if c.Templated {
+		pre, suf = j.srv.URL+"/j/", "/jwks"
+
+		return pre, suf, pre + "{{ .TokenIssuer }}" + suf
+	}
+
+	text = j.srv.URL + "/j/" + c.Literal + "/jwks"
+
+	return "", "", text
+}
+
+func (j *c11Jwks) render(c c11JKConf, iss string) string {
+	if c.Templated {
+		return j.srv.URL + "/j/" + iss + "/jwks"
+	}
+
+	return j.srv.URL + "/j/" + c.Literal + "/jwks"
+}
+
+func (c c11JKConf) effHeaders() []c11KV {
+	hs := append([]c11KV(nil), c.Headers...)
+	has := false
+
+	for _, h := range hs {
+		if h.K == "Accept" {
+			has = true
+		}
+	}
+
+	if !has {
+		hs = append(hs, c11KV{K: "Accept", V: "application/json"})
+	}
+
+	sort.SliceStable(hs, func(a, b int) bool { return hs[a].K < hs[b].K })
+
+	return hs
+}
+
+func (j *c11Jwks) sign(t c11JTok) string {
+	key := j.keys[t.Signer]
+
+	signer, err := jose.NewSigner(jose.SigningKey{Algorithm: jose.ES256, Key: jose.JSONWebKey{Key: key, KeyID: t.Kid}},
+		(&jose.SignerOptions{}).WithType("JWT"))
+	if err != nil {
+		panic(err)
+	}
+
+	now := time.Now().Unix()
+
+	s, err := jwt.Signed(signer).Claims(map[string]any{"iss": t.Iss, "sub": t.Sub, "iat": now - 5, "nbf": now - 5, "exp": now + 3600}).Serialize()
+	if err != nil {
+		panic(err)
+	}
+
+	return s
+}
+
+type c11JKObs struct {
+	Status string    `json:"status"`
+	Detail string    `json:"detail,omitempty"`
+	Steps  []c11Obs2 `json:"steps"`
+}
+
+func (j *c11Jwks) runJK(c *c11JKCase) (c11JKObs, *c11Sha) {
+	tab := &c11Sha{dig: map[string]string{}}
+	_, _, text := j.urlText(c.Proto)
+	ep := map[string]any{"url": text}
+
+	if len(c.Proto.Headers) != 0 {
+		hs := map[string]any{}
+		for _, h := range c.Proto.Headers {
+			hs[h.K] = h.V
+		}
+
+		ep["headers"] = hs
+	}
+
+	conf := config.MechanismConfig{"jwks_endpoint": ep, "assertions": map[string]any{"issuers": []any{"isa", "isb", "isc", "isz"}}}
+	if c.Proto.TTL != nil {
+		conf["cache_ttl"] = c11Dur(*c.Proto.TTL)
+	}
+
+	mf, err := NewMechanismFactory(&config.Configuration{Prototypes: &config.MechanismPrototypes{
+		Authenticators: []config.Mechanism{{ID: "jw", Type: "jwt", Config: conf}},
+	}}, zerolog.Nop(), nil, nil, nil)
+	if err != nil {
+		return c11JKObs{Status: "config_rejected", Detail: err.Error()}, tab
+	}
+
+	proto, err := mf.CreateAuthenticator("", "jw", nil)
+	if err != nil {
+		return c11JKObs{Status: "config_rejected", Detail: err.Error()}, tab
+	}
+
+	insts := []authenticators.Authenticator{proto, proto}
+	effs := []c11JKConf{c.Proto, c.Proto}
+
+	if c.Over != nil {
+		in, err := mf.CreateAuthenticator("", "jw", config.MechanismConfig{"cache_ttl": c11Dur(*c.Over)})
+		if err != nil {
+			return c11JKObs{Status: "config_rejected", Detail: err.Error()}, tab
+		}
+
+		insts[1] = in
+		effs[1].TTL = c.Over
+	}
+
+	exec := func(i int, t c11JTok, cch cache.Cache) (string, int) {
+		j.mu.Lock()
+		j.calls = 0
+		j.mu.Unlock()
+
+		req := httptest.NewRequest(http.MethodGet, "http://heimdall.local/resource", nil)
+		req.Header.Set("Authorization", "Bearer "+j.sign(t))
+
+		if cch != nil {
+			req = req.WithContext(cache.WithContext(req.Context(), cch))
+		}
+
+		out := ""
+
+		sub, err := insts[i].Execute(requestcontext.New(req))
+		if err != nil {
+			out = c11ErrKind(err)
+		} else {
+			out = "allow:" + sub.ID
+		}
+
+		j.mu.Lock()
+		defer j.mu.Unlock()
+
+		return out, j.calls
+	}
+
+	obs := c11JKObs{Status: "ok"}
+	shared := c11NewCache()
+
+	for _, st := range c.Steps {
+		before := len(shared.gets)
+		o := c11Obs2{}
+		o.Out, o.Calls = exec(st.Inst, st.Tok, shared)
+
+		if len(shared.gets) > before {
+			o.Key, o.Hit = shared.gets[before].Key, shared.gets[before].Hit
+		}
+
+		o.Fresh, _ = exec(st.Inst, st.Tok, nil)
+
+		var epre strings.Builder
+
+		epre.WriteString(text)
+		epre.WriteString("GET")
+
+		for _, h := range effs[st.Inst].effHeaders() {
+			epre.WriteString(h.K)
+			epre.WriteString(h.V)
+		}
+
+		tab.sum(tab.sum(epre.String()) + j.render(c.Proto, st.Tok.Iss) + st.Tok.Kid)
+		obs.Steps = append(obs.Steps, o)
+	}
+
+	return obs, tab
+}
+
+func c11CoqJKOut(s string) string {
+	switch {
+	case strings.HasPrefix(s, "allow:"):
+		return "(OAllow (jko " + vf.CoqStr(strings.TrimPrefix(s, "allow:")) + "))"
+	case s == "deny":
+		return "ODeny"
+	}
+
+	return "OErr"
+}
+
+func (j *c11Jwks) coqJK(c c11JKCase, o c11JKObs, tab *c11Sha) string {
+	if o.Status != "ok" {
+		return "(JK [] [] [((jkc (JLit \"rejected\") [] None, jtk2 \"\" \"\" \"\" \"\"), ob2 (Some \"rejected\") false 0 OErr OErr)])"
+	}
+
+	// what the JWKS server publishes at the URLs the steps can reach
+	urls := map[string]string{}
+
+	for _, st := range c.Steps {
+		u := j.render(c.Proto, st.Tok.Iss)
+		owner := st.Tok.Iss
+
+		if !c.Proto.Templated {
+			owner = c.Proto.Literal
+		}
+
+		if j.keys[owner] != nil {
+			urls[u] = owner
+		}
+	}
+
+	names := make([]string, 0, len(urls))
+	for u := range urls {
+		names = append(names, u)
+	}
+
+	sort.Strings(names)
+
+	var world []string
+	for _, u := range names {
+		ow := urls[u]
+		world = append(world, vf.CoqPair(vf.CoqStr(u), vf.CoqList([]string{
+			vf.CoqPair(vf.CoqStr("k1"), vf.CoqStr(ow)), vf.CoqPair(vf.CoqStr("k-"+ow), vf.CoqStr(ow))})))
+	}
+
+	pre, suf, text := j.urlText(c.Proto)
+	url := "(JLit " + vf.CoqStr(text) + ")"
+
+	if c.Proto.Templated {
+		url = "(JTpl " + vf.CoqStr(pre) + " " + vf.CoqStr(suf) + ")"
+	}
+
+	var steps []string
+
+	for i, st := range c.Steps {
+		e := c.Proto
+		if st.Inst == 1 && c.Over != nil {
+			e.TTL = c.Over
+		}
+
+		ttl := "None"
+		if e.TTL != nil {
+			ttl = "(Some " + vf.CoqZ(*e.TTL) + ")"
+		}
+
+		cfg := vf.CoqApp("jkc", url, vf.CoqListOf(e.effHeaders(), c11CoqKV), ttl)
+		tok := vf.CoqApp("jtk2", vf.CoqStr(st.Tok.Iss), vf.CoqStr(st.Tok.Kid), vf.CoqStr(st.Tok.Signer), vf.CoqStr(st.Tok.Sub))
+		so := o.Steps[i]
+		steps = append(steps, vf.CoqPair(vf.CoqPair(cfg, tok), vf.CoqApp("ob2", c11OptKey(so.Key), vf.CoqBool(so.Hit), vf.CoqNat(so.Calls),
+			c11CoqJKOut(so.Out), c11CoqJKOut(so.Fresh))))
+	}
+
+	return vf.CoqApp("JK", c11CoqSha(tab), vf.CoqList(world), vf.CoqList(steps))
+}
+
+func c11GenJK(r *vf.Rand) c11JKCase {
+	c := c11JKCase{Proto: c11JKConf{Templated: r.Chance(75), Literal: vf.Pick(r, c11Issuers)}}
+
+	if r.Chance(35) {
+		c.Proto.Headers = []c11KV{{K: "X-A", V: vf.Pick(r, []string{"a1", "b2"})}}
+	}
+
+	switch x := r.Intn(100); {
+	case x < 50:
+	case x < 88:
+		c.Proto.TTL = c11TTL(5 * time.Minute)
+	default:
+		c.Proto.TTL = c11TTL(0)
+	}
+
+	if r.Chance(30) {
+		c.Over = vf.Pick(r, []*int64{c11TTL(10 * time.Minute), c11TTL(0)})
+	}
+
+	iss := vf.Pick(r, c11Issuers)
+	base := c11JTok{Iss: iss, Kid: vf.Pick(r, []string{"k1", "k1", "k-" + iss}), Signer: iss, Sub: vf.Pick(r, c11SubIDs)}
+
+	if !c.Proto.Templated {
+		base.Iss, base.Signer = c.Proto.Literal, c.Proto.Literal
+		base.Kid = vf.Pick(r, []string{"k1", "k-" + c.Proto.Literal})
+	}
+
+	c.Steps = []c11JKStep{{Tok: base, Rel: "first"}}
+	n := 2 + r.Intn(5)
+
+	for len(c.Steps) < n {
+		from := c.Steps[r.Intn(len(c.Steps))]
+
+		switch x := r.Intn(100); {
+		case x < 28:
+			from.Rel = "same"
+		case x < 38 && c.Over != nil:
+			from.Inst, from.Rel = 1-from.Inst, "other-instance"
+		case x < 58:
+			// a token that CLAIMS another issuer but is signed by the same key (forged issuer)
+			from.Tok.Iss, from.Rel = c11Other(r, append(c11Issuers, "isz"), from.Tok.Iss), "diff:iss-claim"
+		case x < 70:
+			// an honest token of another issuer
+			o := c11Other(r, c11Issuers, from.Tok.Iss)
+			from.Tok.Iss, from.Tok.Signer, from.Rel = o, o, "diff:issuer"
+		case x < 80:
+			from.Tok.Signer, from.Rel = c11Other(r, c11Issuers, from.Tok.Signer), "diff:signer"
+		case x < 90:
+			from.Tok.Kid, from.Rel = c11Other(r, []string{"k1", "k-" + from.Tok.Iss, "kx"}, from.Tok.Kid), "diff:kid"
+		default:
+			from.Tok.Sub, from.Rel = c11Other(r, c11SubIDs, from.Tok.Sub), "diff:sub"
+		}
+
+		c.Steps = append(c.Steps, from)
+	}
+
+	return c
+}
+
+func c11JKCorpus() []c11JKCase {
+	tok := func(iss, signer string) c11JTok { return c11JTok{Iss: iss, Kid: "k1", Signer: signer, Sub: "alice"} }
+
+	return []c11JKCase{
+		// two issuers share the key id k1; a token claiming isb but signed with isa's key must not be verified with
+		// isa's cached key (the rendered JWKS url is part of the key)
+		{Proto: c11JKConf{Templated: true}, Steps: []c11JKStep{{Tok: tok("isa", "isa"), Rel: "first"}, {Tok: tok("isb", "isa"), Rel: "diff:iss-claim"},
+			{Tok: tok("isb", "isb"), Rel: "diff:signer"}, {Tok: tok("isa", "isa"), Rel: "same"}}},
+		{Proto: c11JKConf{Templated: false, Literal: "isa", TTL: c11TTL(5 * time.Minute)}, Over: c11TTL(0),
+			Steps: []c11JKStep{{Tok: tok("isa", "isa"), Rel: "first"}, {Tok: tok("isa", "isb"), Rel: "diff:signer"}, {Inst: 1, Tok: tok("isa", "isa"), Rel: "other-instance"},
+				{Tok: tok("isa", "isa"), Rel: "same"}}},
+	}
+}
+
+// ---------------------------------------------------------------- RFC 7234 cache of an endpoint
+
+type c11HCCase struct {
+	Variant string   `json:"variant"` // novary vary-user vary-other vary-both nostore
+	Method  string   `json:"method"`
+	Subs    []string `json:"subs"`
+}
+
+func c11HCVary(variant string) []string {
+	switch variant {
+	case "vary-user":
+		return []string{"X-User"}
+	case "vary-other":
+		return []string{"X-Other"}
+	case "vary-both":
+		return []string{"X-User", "X-Other"}
+	}
+
+	return nil
+}
+
+type c11HCSrv struct {
+	srv   *httptest.Server
+	mu    sync.Mutex
+	calls int
+}
+
+func c11NewHCSrv() *c11HCSrv {
+	h := &c11HCSrv{}
+	h.srv = httptest.NewServer(http.HandlerFunc(func(w http.ResponseWriter, r *http.Request) {
+		h.mu.Lock()
+		h.calls++
+		h.mu.Unlock()
+
+		variant := strings.TrimPrefix(r.URL.Path, "/h/")
+		vary := c11HCVary(variant)
+		body := "static"
+
+		if len(vary) != 0 {
+			var vals []string
+			for _, n := range vary {
+				vals = append(vals, r.Header.Get(n))
+			}
+
+			body = strings.Join(vals, "|")
+			w.Header().Set("Vary", strings.Join(vary, ", "))
+		}
+
+		if variant == "nostore" {
+			w.Header().Set("Cache-Control", "no-store")
+		} else {
+			w.Header().Set("Cache-Control", "max-age=300")
+		}
+
+		w.Header().Set("Content-Type", "application/json")
+		json.NewEncoder(w).Encode(map[string]any{"b": body})
+	}))
+
+	return h
+}
+
+func (h *c11HCSrv) runHC(c c11HCCase) ([]c11Obs2, *c11Sha, string) {
+	tab := &c11Sha{dig: map[string]string{}}
+	url := h.srv.URL + "/h/" + c.Variant
+
+	mf, err := NewMechanismFactory(&config.Configuration{Prototypes: &config.MechanismPrototypes{
+		Contextualizers: []config.Mechanism{{ID: "hc", Type: "generic", Config: config.MechanismConfig{
+			"endpoint": map[string]any{"url": url, "method": c.Method,
+				"headers":    map[string]any{"X-User": "{{ .Subject.ID }}", "X-Other": "o1"},
+				"http_cache": map[string]any{"enabled": true, "default_ttl": "5m"}},
+			"cache_ttl": "0s"}}},
+	}}, zerolog.Nop(), nil, nil, nil)
+	if err != nil {
+		return nil, tab, "config_rejected: " + err.Error()
+	}
+
+	hc, err := mf.CreateContextualizer("", "hc", nil)
+	if err != nil {
+		return nil, tab, "config_rejected: " + err.Error()
+	}
+
+	exec := func(sub string, cch cache.Cache) (string, int) {
+		h.mu.Lock()
+		h.calls = 0
+		h.mu.Unlock()
+
+		req := httptest.NewRequest(http.MethodGet, "http://heimdall.local/resource", nil)
+		if cch != nil {
+			req = req.WithContext(cache.WithContext(req.Context(), cch))
+		}
+
+		ctx := requestcontext.New(req)
+		out := ""
+
+		if err := hc.Execute(ctx, &subject.Subject{ID: sub, Attributes: map[string]any{}}); err != nil {
+			out = "err:" + err.Error()
+		} else if m, ok := ctx.Outputs()["hc"].(map[string]any); ok {
+			out, _ = m["b"].(string)
+		}
+
+		h.mu.Lock()
+		defer h.mu.Unlock()
+
+		return out, h.calls
+	}
+
+	shared := c11NewCache()
+
+	var obs []c11Obs2
+
+	for _, sub := range c.Subs {
+		before := len(shared.gets)
+		o := c11Obs2{}
+		o.Out, o.Calls = exec(sub, shared)
+
+		if len(shared.gets) > before {
+			o.Key, o.Hit = shared.gets[before].Key, shared.gets[before].Hit
+		}
+
+		o.Fresh, _ = exec(sub, nil)
+		obs = append(obs, o)
+	}
+
+	tab.sum("RFC 7234" + url + c.Method)
+
+	return obs, tab, ""
+}
+
+func (h *c11HCSrv) coqHC(c c11HCCase, obs []c11Obs2, tab *c11Sha, status string) string {
+	url := h.srv.URL + "/h/" + c.Variant
+
+	if status != "" {
+		return "(HC [] (hcc \"rejected\" \"\" [] false) [([], ob2 (Some \"rejected\") false 0 OErr OErr)])"
+	}
+
+	out := func(s string) string {
+		if strings.HasPrefix(s, "err:") {
+			return "OErr"
+		}
+
+		return "(OAllow (res (snt " + vf.CoqStr(url) + " " + vf.CoqStr(c.Method) + " [] [] \"\" " + vf.CoqStr(s) + ") \"\" []))"
+	}
+
+	var steps []string
+
+	for i, sub := range c.Subs {
+		hdrs := vf.CoqList([]string{vf.CoqPair(vf.CoqStr("X-Other"), vf.CoqStr("o1")), vf.CoqPair(vf.CoqStr("X-User"), vf.CoqStr(sub))})
+		o := obs[i]
+		steps = append(steps, vf.CoqPair(hdrs, vf.CoqApp("ob2", c11OptKey(o.Key), vf.CoqBool(o.Hit), vf.CoqNat(o.Calls), out(o.Out), out(o.Fresh))))
+	}
+
+	return vf.CoqApp("HC", c11CoqSha(tab), vf.CoqApp("hcc", vf.CoqStr(url), vf.CoqStr(c.Method), vf.CoqStrs(c11HCVary(c.Variant)),
+		vf.CoqBool(c.Variant != "nostore")), vf.CoqList(steps))
+}
+
+func c11GenHC(r *vf.Rand) c11HCCase {
+	c := c11HCCase{Variant: vf.Pick(r, []string{"novary", "vary-user", "vary-user", "vary-other", "vary-both", "nostore"}),
+		Method: vf.Pick(r, []string{"GET", "GET", "GET", "POST"})}
+	n := 2 + r.Intn(4)
+
+	for i := 0; i < n; i++ {
+		c.Subs = append(c.Subs, vf.Pick(r, c11SubIDs))
+	}
+
+	return c
+}
+
 // ---------------------------------------------------------------- the stream
 
 func TestVerifC11Keys(t *testing.T) {
@@ -833,9 +1408,81 @@ func TestVerifC11Keys(t *testing.T) {
 		idx++
 	}
 
+	jw := c11NewJwks()
+	defer jw.srv.Close()
+
+	hs := c11NewHCSrv()
+	defer hs.srv.Close()
+
+	emitJK := func(stream string, c c11JKCase) {
+		if vf.Want(idx) {
+			obs, tab := jw.runJK(&c)
+			tags := []string{"kind:jwt-key-cache", "status:" + obs.Status, fmt.Sprintf("steps:%d", len(c.Steps)), fmt.Sprintf("templated:%t", c.Proto.Templated)}
+			lookups := 0
+
+			for i, st := range c.Steps {
+				tags = append(tags, "rel:"+st.Rel)
+
+				if obs.Status == "ok" {
+					if obs.Steps[i].Key != "" {
+						lookups++
+
+						tags = append(tags, "site:jwt-key-cache:lookup")
+
+						if obs.Steps[i].Hit {
+							tags = append(tags, "site:jwt-key-cache:hit")
+						}
+					}
+
+					tags = append(tags, "out:"+strings.SplitN(obs.Steps[i].Out, ":", 2)[0])
+
+					if obs.Steps[i].Out != obs.Steps[i].Fresh {
+						tags = append(tags, "cached-vs-fresh:differs")
+					}
+				}
+			}
+
+			w.Put(vf.Obs{I: idx, Stream: stream, In: c, Out: obs, Coq: jw.coqJK(c, obs, tab), Nontrivial: lookups >= 2, Tags: tags})
+		}
+
+		idx++
+	}
+
+	emitHC := func(stream string, c c11HCCase) {
+		if vf.Want(idx) {
+			obs, tab, status := hs.runHC(c)
+			tags := []string{"kind:http-cache", "variant:" + c.Variant, "method:" + c.Method, fmt.Sprintf("steps:%d", len(c.Subs))}
+
+			for _, o := range obs {
+				tags = append(tags, "site:http-cache:lookup")
+
+				if o.Hit {
+					tags = append(tags, "site:http-cache:hit")
+				}
+
+				if o.Out != o.Fresh {
+					tags = append(tags, "cached-vs-fresh:differs")
+				}
+			}
+
+			w.Put(vf.Obs{I: idx, Stream: stream, In: c, Out: obs, Coq: hs.coqHC(c, obs, tab, status), Nontrivial: len(obs) >= 2, Tags: tags})
+		}
+
+		idx++
+	}
+
+	for _, c := range c11JKCorpus() {
+		emitJK("corpus", c)
+	}
+
 	for _, c := range ts.ccCorpus() {
 		emitCC("corpus", c)
 	}
+
+	// C11-F8 and its finding-free neighbours
+	emitHC("corpus", c11HCCase{Variant: "novary", Method: "GET", Subs: []string{"alice", "bobby", "alice"}})
+	emitHC("corpus", c11HCCase{Variant: "vary-other", Method: "GET", Subs: []string{"alice", "bobby"}})
+	emitHC("corpus", c11HCCase{Variant: "vary-user", Method: "GET", Subs: []string{"alice", "bobby", "alice"}})
 
 	for _, c := range c11JFCorpus() {
 		emitJF("corpus", c)
@@ -843,10 +1490,16 @@ func TestVerifC11Keys(t *testing.T) {
 
 	for i := 0; i < n; i++ {
 		r := root.Fork(uint64(i))
-		if i%2 == 0 {
+
+		switch i % 5 {
+		case 0:
 			emitCC("generated", ts.genCC(r))
-		} else {
+		case 1, 2:
+			emitJK("generated", c11GenJK(r))
+		case 3:
 			emitJF("generated", c11GenJF(r))
+		default:
+			emitHC("generated", c11GenHC(r))
 		}
 	}
 
